@@ -40,7 +40,7 @@ func (p TPeer) UDP() *net.UDPAddr {
 }
 
 type TOp struct {
-	Kind    string // Q | P | U | H | Add | Age | QP | Probe | TM | PBlock (a ping whose answer arrives after its sender was blocklisted)
+	Kind    string // Q | P | U | H | Add | Age | QP | Probe | TM | PBlock (a ping whose answer arrives after its sender was blocklisted) | PCancel (a query whose answer arrives after its context was cancelled and the call returned)
 	Peer    int
 	Method  string
 	RO      bool
@@ -66,6 +66,9 @@ type TableSc struct {
 	Peers    []TPeer
 	Blocked  []int
 	Ops      []TOp
+	// Hook: "" | allow | veto - an OnQuery hook that lets every query through / keeps every query to
+	// itself (the sender of a kept query is still a sender: C06's admission rule does not depend on it)
+	Hook string
 }
 
 // ---- generator ----------------------------------------------------------------------------------------
@@ -181,7 +184,7 @@ func genTable(t *rapid.T, bias string) TableSc {
 			case r < 38:
 				op = TOp{Kind: "P", Peer: peer("op.peer"), Outcome: outcome(), Alt: peer("op.alt"), AltRep: uniformInt(t, 4, "op.altrep") == 0}
 			case r < 50:
-				op = TOp{Kind: "Q", Peer: peer("op.peer"), Method: "ping", IDKind: "own"}
+				op = TOp{Kind: "Q", Peer: peer("op.peer"), Method: "ping", IDKind: "own", RO: uniformInt(t, 4, "op.ro") == 0}
 			case r < 56:
 				op = TOp{Kind: "Age", AgeMin: rapid.SampledFrom(tableAges).Draw(t, "op.age")}
 			case r < 64:
@@ -206,8 +209,10 @@ func genTable(t *rapid.T, bias string) TableSc {
 				op = TOp{Kind: "Add", Peer: peer("op.peer"), IDKind: rapid.SampledFrom([]string{"own", "own", "own", "own", "zero", "root"}).Draw(t, "op.idkind"), AltRep: rapid.IntRange(0, 2).Draw(t, "op.altrep") == 0}
 			case r < 80:
 				op = TOp{Kind: "Age", AgeMin: rapid.SampledFrom(tableAges).Draw(t, "op.age")}
-			case r < 83 && bias == "c06":
+			case r < 82 && bias == "c06":
 				op = TOp{Kind: "PBlock", Peer: peer("op.peer")}
+			case r < 84 && bias == "c06":
+				op = TOp{Kind: "PCancel", Peer: peer("op.peer")}
 			case r < 95:
 				op = TOp{Kind: "QP", K: rapid.IntRange(0, 63).Draw(t, "op.k"), Outcome: pick(t, "op.qpo", "silent", "silent", "silent", "answer", "answer", "error", "other-id", "root-id", "zero-id"), Alt: peer("op.alt")}
 			default:
@@ -215,6 +220,17 @@ func genTable(t *rapid.T, bias string) TableSc {
 			}
 		}
 		sc.Ops = append(sc.Ops, op)
+	}
+	if bias == "c06" {
+		sc.Hook = pick(t, "hook", "", "", "", "allow", "veto")
+		if sc.Hook == "veto" {
+			// a vetoing node answers nothing: probes have nothing to judge
+			for i := range sc.Ops {
+				if sc.Ops[i].Kind == "Probe" {
+					sc.Ops[i] = TOp{Kind: "Q", Peer: sc.Ops[i].K % np, Method: "find_node", IDKind: "own"}
+				}
+			}
+		}
 	}
 	if bias != "c09" && rapid.IntRange(0, 5).Draw(t, "tm") == 0 {
 		sc.Ops = append(sc.Ops, TOp{Kind: "TM"})
@@ -1072,7 +1088,8 @@ func (m *tableMachine) probe1(op TOp, oi int, pre dht.VerifTableSnapshot) (pev t
 func runTable(sc TableSc, c *kit.Case, clause string) *kit.Violation {
 	m := &tableMachine{sc: sc, c: c, clause: clause, root: arr20(sc.Root), script: map[string]TOp{}, answered: map[entryKey]bool{}, model: map[entryKey]*entryModel{}, modelValid: true}
 	m.ref = tableRef{root: m.root, security: sc.Security}
-	opts := SrvOpts{NodeID: m.root, Security: sc.Security}
+	opts := SrvOpts{NodeID: m.root, Security: sc.Security, Hook: sc.Hook}
+	c.Label("hook-" + sc.Hook)
 	if len(sc.Blocked) > 0 {
 		m.blocked = &blockSet{}
 		for _, i := range sc.Blocked {
@@ -1232,6 +1249,43 @@ func runTable(sc TableSc, c *kit.Case, clause string) *kit.Violation {
 			m.sv.C.DelayHook = nil
 			m.offeredIneligible = true
 			what += fmt.Sprintf(" (peer %d %s blocklisted while its ping was outstanding)", op.Peer, p.UDP())
+		case "PCancel":
+			p := sc.Peers[op.Peer]
+			sop := op
+			sop.Outcome = "hold"
+			m.script[p.UDP().String()] = sop
+			m.heldReply = nil
+			m.sv.C.DelayHook = func(int64, bool) time.Duration { return time.Hour }
+			ctx, cancel := context.WithCancel(context.Background())
+			qdone := make(chan struct{})
+			simnet.Go(func() {
+				defer close(qdone)
+				m.sv.S.Query(ctx, dht.NewAddr(p.UDP()), "ping", dht.QueryInput{})
+			})
+			if err := m.sv.C.Quiesce(barrierTimeout); err != nil {
+				cancel()
+				c.Inconclusive = err.Error()
+				return nil
+			}
+			delete(m.script, p.UDP().String())
+			// the caller gives up; only after its call has returned does the answer arrive
+			cancel()
+			select {
+			case <-qdone:
+			case <-time.After(20 * time.Second):
+				if ok, who := m.sv.C.AllBlocked(); !ok {
+					c.Inconclusive = "cancelled query still running after 20 s with runnable goroutines: " + who
+					return nil
+				}
+				m.report("C06:api-call-hung", "%s: the cancelled query did not return although every module goroutine is blocked", what)
+				return m.viol
+			}
+			if m.heldReply != nil {
+				m.heldReply() // nobody is waiting for it any more: it is an unsolicited response
+				m.offeredIneligible = true
+			}
+			m.sv.C.DelayHook = nil
+			what += fmt.Sprintf(" (peer %d %s answers a ping after the ping's context was cancelled and the call had returned)", op.Peer, p.UDP())
 		case "Age":
 			m.sv.S.VerifAge(time.Duration(op.AgeMin) * time.Minute)
 			what += fmt.Sprintf(" (%d min)", op.AgeMin)
